@@ -90,7 +90,8 @@ def run(tier):
                 bad = ("call-failed-on-internal-buffer", "call %d: %s" % (k, " ".join(a0)))
                 break
             if a1[1] != "0":
-                raise common.HarnessError("reference instance failed: %s" % " ".join(a1))
+                bad = ("precondition:call-failed-on-ample-caller-buffer", "call %d: %s" % (k, " ".join(a1)))
+                break
             stats["calls_compared"] += 1
             if s0[1:] != s1[1:]:
                 bad = ("code-differs-from-reference" if s0[1] == s1[1] else "offset-differs-from-reference", "call %d: internal %s reference %s" % (k, s0[1:], s1[1:]))
